@@ -608,6 +608,98 @@ func TestCases(t *testing.T) {
 		t.Fatal(err)
 	}
 
+	// ---------------------------------------------------------------- password lengths 0..40 (the key derivation fills 64-byte
+	// blocks with the BMP password: 2n+2 bytes, a block boundary at n = 31) and random iteration counts
+	{
+		r := vutil.Rand(2140)
+		lens := []int{0, 1, 2, 30, 31, 32, 33, 39, 40}
+		if vutil.Thorough() {
+			lens = nil
+			for n := 0; n <= 40; n++ {
+				lens = append(lens, n)
+			}
+		}
+		alpha := []rune("abcdefghijklmnopqrstuvwxyzABCDEFGHIJKLMNOPQRSTUVWXYZ0123456789 _-éüß中文字あЖΩ")
+		for _, n := range lens {
+			for variant := 0; variant < 2; variant++ {
+				pw := ""
+				for i := 0; i < n; i++ {
+					if variant == 0 {
+						pw += string(alpha[r.Intn(62)]) // ASCII
+					} else {
+						pw += string(alpha[r.Intn(len(alpha))]) // ASCII, Latin, CJK, Cyrillic, Greek
+					}
+				}
+				kt := []string{"rsa", "p256"}[r.Intn(2)]
+				iter := 1 + r.Intn(4096)
+				if !vutil.Thorough() {
+					iter = 1 + r.Intn(64)
+				}
+				pfx := m.export(t, kt, pw, iter, "")
+				out.Case(fmt.Sprintf("pwlen/%d/%d", n, variant))
+				stats["password_length_cases"]++
+				d, p := callDecode(pfx, pw), callToPEM(pfx, pw)
+				detail := map[string]any{"key": kt, "iterations": iter, "file_password": pw, "password_chars": n, "pfx_hex": hex.EncodeToString(pfx), "decode_err": fmt.Sprint(d.err), "topem_err": fmt.Sprint(p.err)}
+				if d.outcome == "panic" || p.outcome == "panic" {
+					viol("pkcs12-panic:pwlen", "panic: "+d.panicV+p.panicV, detail)
+					continue
+				}
+				if why := m.exact(kt, d, p); why != "" {
+					viol("pkcs12-wrong-data", why, detail)
+					continue
+				}
+				if d.outcome != "ok" || p.outcome != "ok" {
+					viol("pkcs12-interop:password-length", fmt.Sprintf("an openssl -legacy PFX (%s key, password of %d characters, %d iterations) is not decoded with its own password: Decode %v, ToPEM %v", kt, n, iter, d.err, p.err), detail)
+				}
+				if n > 0 {
+					w := callDecode(pfx, pw[:len(pw)-1])
+					if w.outcome != "badpw" {
+						viol("pkcs12-wrong-password-not-reported", fmt.Sprintf("password shortened by one byte: Decode %s (%v)", w.outcome, w.err), detail)
+					}
+				}
+			}
+		}
+	}
+
+	// ---------------------------------------------------------------- the other convention for the empty password
+	// openssl keys everything with the two-byte NUL for "" ; some writers use the empty byte string.  The package tries
+	// both (getSafeContents retries the MAC with a nil password and then decrypts with it).
+	for _, kt := range []string{"rsa", "p256"} {
+		for _, iter := range []int{1, 2, 2048} {
+			pfx := m.export(t, kt, "", iter, "")
+			l, err := analyse(pfx)
+			if err != nil {
+				t.Fatal(err)
+			}
+			alt, err := reencrypt(pfx, l, []byte{0, 0}, nil, iter)
+			if err != nil {
+				t.Fatalf("cannot build the empty-bytes variant: %v", err)
+			}
+			for _, given := range []string{"", "x"} {
+				out.Case(fmt.Sprintf("emptyconv/%s/%d/%q", kt, iter, given))
+				stats["empty_bytes_convention_cases"]++
+				d, p := callDecode(alt, given), callToPEM(alt, given)
+				detail := map[string]any{"key": kt, "iterations": iter, "given_password": given, "pfx_hex": hex.EncodeToString(alt), "decode_err": fmt.Sprint(d.err), "topem_err": fmt.Sprint(p.err)}
+				if d.outcome == "panic" || p.outcome == "panic" {
+					viol("pkcs12-panic:emptyconv", "panic: "+d.panicV+p.panicV, detail)
+					continue
+				}
+				if why := m.exact(kt, d, p); why != "" {
+					viol("pkcs12-wrong-data", why+" (empty password as empty byte string)", detail)
+					continue
+				}
+				want := map[string]string{"": "ok", "x": "badpw"}[given]
+				if d.outcome != want || p.outcome != want {
+					sig := "pkcs12-interop:empty-bytes-convention"
+					if want == "badpw" {
+						sig = "pkcs12-wrong-password-not-reported"
+					}
+					viol(sig, fmt.Sprintf("PFX protected with the empty password as an empty byte string (%s key, %d iterations), password %q: Decode %s (%v), ToPEM %s (%v), expected %s", kt, iter, given, d.outcome, d.err, p.outcome, p.err, want), detail)
+				}
+			}
+		}
+	}
+
 	// ---------------------------------------------------------------- sweeps: every tag / length byte, every truncation, random bytes
 	nRand, _ := strconv.Atoi(vutil.Env("VERIF_RAND", "2000"))
 	r := vutil.Rand(2121)
